@@ -89,7 +89,7 @@ def inDomain : TraitType → Val → Bool
   -- Instance: "an instance of a class or its subclasses", allow_none, adapt
   | .instance cls an mode dflt, w =>
     (an && w.isNone) || Val.isInst cls w || (decide (mode ≥ 1) && E.provides w cls)
-      || (decide (mode = 2) && w == dflt)
+      || (decide (mode ≥ 2) && w == dflt)
   -- Type: "a subclass of a specified class", allow_none
   | .type_ cls an, w => (an && w.isNone) || isSubclass w cls == some true
   -- This: "an instance of the defining class"
@@ -180,7 +180,7 @@ def Conv : TraitType → Val → Val → Prop
   | .tupleAny, v, w => w = v ∨ (∃ vs, v = .list vs ∧ w = .tuple false vs)
   -- the value, its adapter, or (adapt='default') the default value
   | .instance cls _ mode dflt, v, w =>
-    w = v ∨ (mode ≥ 1 ∧ E.adapt v cls = .ok (some w)) ∨ (mode = 2 ∧ w = dflt)
+    w = v ∨ (mode ≥ 1 ∧ E.adapt v cls = .ok (some w)) ∨ (mode ≥ 2 ∧ w = dflt)
   | .type_ .., v, w => w = v
   | .this _, v, w => w = v
   | .callable _, v, w => w = v
